@@ -124,12 +124,19 @@ def enum_env_str(seed):
             env["PKGCORE_NONEXPORTED_VARS"] = " ".join(sorted(nonexp))
         env["UID"] = "12"   # read-only in the daemon: must be left out
         cases += 1
+        given = {k: (list(v) if isinstance(v, list) else v) for k, v in env.items()}
         try:
             text = me._generate_env_str(env)
+            again = me._generate_env_str(env)     # a build hands the same mapping over for every phase
         except Exception as e:
             if len(fails) < 5:
-                fails.append({"model": {"env": env}, "detail": f"_generate_env_str({env!r}) raised {type(e).__name__}: {e}"})
+                fails.append({"model": {"env": given}, "detail": f"_generate_env_str({given!r}) raised {type(e).__name__}: {e}"})
             continue
+        if env != given or again != text:
+            if len(fails) < 5:
+                fails.append({"model": {"env": given}, "detail": f"_generate_env_str({given!r}): " + (f"the caller's mapping was changed to {env!r}" if env != given else "") +
+                              (f" the same mapping sent a second time gives another text: {again!r} after {text!r}" if again != text else "")})
+            env = dict(given)
         script = "unset " + " ".join(names) + "\n" + text + "\n" + "".join(f'printf "%s\\0" "{n}" "${{{n}@a}}" "${{#{n}[@]}}" "${{{n}[@]}}"\n' for n in ks)
         r = subprocess.run(["bash", "--norc", "-c", script], capture_output=True)
         fields = r.stdout.decode("utf-8", "surrogateescape").split("\0")
